@@ -453,6 +453,17 @@ def build(tier, seed):
                     'samples': [[0.5, [0.37 * v_ for v_ in range(1, n_s + 1)]],
                                 [1.5, [100.0 - 0.21 * v_ for v_ in range(n_s)]]],
                     'row_order': 'interleaved'})
+    # bulk probabilities given in decreasing / arbitrary order
+    for cls in ('PDPP', 'PKPP'):
+        for ps in ([0.9, 0.5], [0.8, 0.2], [0.6, 0.9, 0.3], [0.5, 0.9, 0.7, 0.1],
+                   [0.3, 0.9, 0.6]):
+            for n0, n1 in ((10, 20), (13, 7)):
+                for ro in ('asc', 'interleaved'):
+                    bands.append({
+                        'cls': cls, 'probs': ps,
+                        'samples': [[0.5, [float(v) for v in range(1, n0 + 1)]],
+                                    [1.5, [0.5 * v for v in range(1, n1 + 1)]]],
+                        'row_order': ro})
     # samples piling up on a lower / upper limit (censored or rounded values): many
     # ties towards the tails
     for cls in ('PDPP', 'PKPP'):
@@ -530,3 +541,7 @@ META = {
     'level_note': 'Exhaustive within the stated alphabets; figures are inspected as '
                   'objects, not rendered.',
 }
+META['level_text'] += (
+    ' Also: PDTimeSeriesPlot.add_simulation over time orders x row labels x keys; s'
+    'amples piling up on limits; a few hundred samples with fine percentiles; bulk '
+    'probabilities in arbitrary order; PD figures fed with PKPD frames.')
